@@ -32,7 +32,7 @@ VERIF = os.path.dirname(os.path.dirname(os.path.abspath(__file__)))
 REPO = os.environ.get("VERIF_REPO", "/repo")
 COQ = os.path.join(VERIF, "coq")
 PY = "/venv/bin/python"
-NPROC = int(os.environ.get("PV_NPROC") or 0) or max(2, min(6, os.cpu_count() or 4))  # TODO(final): back to 16
+NPROC = int(os.environ.get("PV_NPROC") or 0) or max(2, min(16, os.cpu_count() or 4))
 HYGIENE_RE = re.compile(
     r"\b(Admitted|admit|Axiom|Axioms|Parameter|Parameters|Conjecture|Conjectures|"
     r"Admit\s+Obligations|bypass_check|native_compute)\b|Unset\s+Guard|Unset\s+Positivity|"
